@@ -1,78 +1,20 @@
 //go:build verif
 
-package mvp5
+package mvp3
 
-// Contracts for MVP-5 (properties C09, C03, C12, C07).
-// The stage functions (fetch/decode/execute/write `cycle`) are state machines
-// over buses and closures; inside Run they are used through havoc contracts:
-// "anything reachable may change, nothing is promised" - a sound
-// over-approximation that needs no trust. What is proved about Run is
-// therefore exactly what Run's own control flow establishes.
+// Contracts for the MVP-3 memory management unit (property C05: the cache
+// hierarchy is transparent and leaves nothing behind). The same text is
+// instantiated for MVP-4/5 (L1D) and MVP-6.0-6.3 (L3) by
+// /verif/contracts/gen_mmu.py.
+//
+// View: the data cache is the MRU-first line sequence of comp.LRUCache;
+// mem(a) is u.ctx.Memory[a]. Each operation is specified over the whole
+// memory / whole line: a fill copies memory, a write-miss goes to memory, an
+// eviction must write the victim back, the final flush must leave every
+// resident byte in memory.
 
 //@ mode int
 
-//@ func (*fetchUnit).cycle
-//@   havoc
-//@   preserves CPU
-//@ func (*decodeUnit).cycle
-//@   havoc
-//@   preserves CPU
-//@ func (*executeUnit).cycle
-//@   havoc
-//@   preserves CPU
-//@ func (*writeUnit).cycle
-//@   havoc
-//@   preserves CPU
-
-// trivial leaf functions: executed at their call sites
-//@ func (*fetchUnit).isEmpty
-//@   inline
-//@ func (*fetchUnit).flush
-//@   inline
-//@ func (*decodeUnit).isEmpty
-//@   inline
-//@ func (*decodeUnit).flush
-//@   inline
-//@ func (*executeUnit).isEmpty
-//@   inline
-//@ func (*executeUnit).flush
-//@   inline
-//@ func (*writeUnit).isEmpty
-//@   inline
-
-// olderWorkDone: nothing older than the exit point is still waiting to be
-// written back (write bus and write unit are empty).
-//@ spec func writesDone(m *CPU) bool = !m.writeUnit.pendingMemoryWrite && !m.writeBus.pending.exists && !m.writeBus.current.exists
-//@ spec func allIdle(m *CPU) bool = m.fetchUnit.complete && !m.executeUnit.processing && writesDone(m) \
-//@    && !m.decodeBus.pending.exists && !m.decodeBus.current.exists && !m.executeBus.pending.exists && !m.executeBus.current.exists
-
-//@ func (*CPU).isComplete
-//@   requires m.fetchUnit != nil && m.decodeUnit != nil && m.executeUnit != nil && m.writeUnit != nil && m.decodeBus != nil && m.executeBus != nil && m.writeBus != nil
-//@   ensures result == allIdle(m)
-//@   assigns nothing
-
-// CPU.flush (C03): after a flush the fetch unit restarts at pc and nothing
-// fetched on the wrong path is left in the decode/execute/write buses or the
-// scoreboard.
-//@ func (*CPU).flush
-//@   requires m.fetchUnit != nil && m.decodeUnit != nil && m.executeUnit != nil && m.decodeBus != nil && m.executeBus != nil && m.writeBus != nil && m.ctx != nil
-//@   ensures m.fetchUnit.pc == pc && !m.fetchUnit.complete && !m.fetchUnit.processing && !m.decodeUnit.pendingBranchResolution && !m.executeUnit.processing
-//@   ensures !m.decodeBus.pending.exists && !m.decodeBus.current.exists && !m.executeBus.pending.exists && !m.executeBus.current.exists && !m.writeBus.pending.exists && !m.writeBus.current.exists
-//@   ensures len(m.ctx.PendingWriteRegisters) == 0 && len(m.ctx.PendingReadRegisters) == 0
-
-// Run (C09): every exit of the main loop happens with all older write-backs
-// done. (C12) the cycle counter is positive when the loop is left.
-//@ func (*CPU).Run
-//@   assume-before (*memoryManagementUnit).flush: wfMMU(m.memoryManagementUnit) && m.memoryManagementUnit.l1d.lineLength == 64 && allocated(m.memoryManagementUnit.ctx.Memory) && (forall j :: 0 <= j && j < len(m.memoryManagementUnit.l1d.lines) ==> !sameArray(m.memoryManagementUnit.l1d.lines[j].Data, m.memoryManagementUnit.ctx.Memory) && int32(m.memoryManagementUnit.l1d.lines[j].Boundary[0]) <= 1073741824)
-//@   requires m.fetchUnit != nil && m.decodeUnit != nil && m.executeUnit != nil && m.writeUnit != nil && m.decodeBus != nil && m.executeBus != nil && m.writeBus != nil && m.ctx != nil && m.memoryManagementUnit != nil
-//@   nooverflow cycle, m.counterFlush
-//@   loop 0: invariant cycle >= 0 && m.fetchUnit != nil && m.decodeUnit != nil && m.executeUnit != nil && m.writeUnit != nil && m.decodeBus != nil && m.executeBus != nil && m.writeBus != nil && m.ctx != nil && m.memoryManagementUnit != nil
-//@   loop 0: exit writesDone(m)
-//@   loop 0: exit cycle >= 1
-//@   loop 1: invariant cycle >= 1 && m.fetchUnit != nil && m.decodeUnit != nil && m.executeUnit != nil && m.writeUnit != nil && m.decodeBus != nil && m.executeBus != nil && m.writeBus != nil && m.ctx != nil && m.memoryManagementUnit != nil
-
-// ---------------------------------------------------------------- memory management unit (C05)
-// (instantiated from /verif/contracts/proc/mvp3 by gen: same text, same proof)
 //@ spec func wfMMU(u *memoryManagementUnit) bool = u != nil && u.ctx != nil && u.l1d != nil && u.l1i != nil && comp.wfCache(u.l1d) && comp.wfCache(u.l1i) && len(u.ctx.Memory) <= 1073741824
 
 // fill: the fetched line is a copy of memory, zero-padded past the end.
